@@ -122,20 +122,28 @@ def mkcal(k):
     G = rep_scalar(k.get('G', 0.0), k.get('Grepr'))
     nr = k.get('nrepr')              # representation of the scalar level / vrms / magnitude arguments
     pos = k.get('positional')        # vrms handed over positionally
+    # hardening item 9: an optional argument that carries its documented default (vrms=1, fixed_gain=0) is left out
+    # in some cases -- the device described is the same, so every law below must hold unchanged
+    gkw = {} if (k.get('omit_G') and k.get('G', 0.0) == 0) else {'fixed_gain': G}
+    omit_v = bool(k.get('omit_v')) and k.get('v') == 1
     if c == 'flat':
-        if pos:
+        if pos and gkw:
             return PC.FlatCalibration(rep_scalar(k['S'], nr), G)
-        return PC.FlatCalibration(rep_scalar(k['S'], nr), fixed_gain=G)
+        return PC.FlatCalibration(rep_scalar(k['S'], nr), **gkw)
     if c in ('from_spl', 'from_db', 'from_pascals'):
         x = rep_scalar(k['m'] if c == 'from_pascals' else k['L'], nr)
         v = rep_scalar(k['v'], nr)
         meth = getattr(PC.FlatCalibration, c)
-        return meth(x, v, fixed_gain=G) if pos else meth(x, vrms=v, fixed_gain=G)
+        if omit_v:
+            return meth(x, **gkw)
+        return meth(x, v, **gkw) if pos else meth(x, vrms=v, **gkw)
     if c == 'from_mv_pa':
         return PC.FlatCalibration.from_mv_pa(rep_scalar(k['m'], nr))
     if c == 'unity':
         return PC.FlatCalibration.unity()
     if c == 'as_attenuation':
+        if omit_v:
+            return PC.FlatCalibration.as_attenuation()
         return PC.FlatCalibration.as_attenuation(rep_scalar(k['v'], nr)) if pos else \
             PC.FlatCalibration.as_attenuation(vrms=rep_scalar(k['v'], nr))
     cls = PC.InterpCalibration if c.startswith('interp') else PC.PointCalibration
@@ -159,7 +167,7 @@ def mkcal(k):
             f, s = rep_array(f, r if r != 'f32' or all(_isint(v) for v in f) else None), rep_array(s, r if r != 'f32' else None)
         if k.get('phase') and c == 'interp':
             kw['phase'] = [0.01 * i for i in range(len(k['tbl']))]
-        cal = cls(f, s, G, **kw) if pos else cls(f, s, fixed_gain=G, **kw)
+        cal = cls(f, s, G, **kw) if (pos and gkw) else cls(f, s, **gkw, **kw)
         if k.get('mutate_inputs'):
             scribble(f)
             scribble(s)
@@ -176,8 +184,10 @@ def mkcal(k):
         kw.pop('reference', None)
     if meth == 'from_spl':
         kw.pop('reference', None)      # from_spl sets it itself
-    cal = getattr(cls, meth)(f, x, v, fixed_gain=G, **kw) if pos else \
-        getattr(cls, meth)(f, x, vrms=v, fixed_gain=G, **kw)
+    if k.get('omit_v') and k.get('scalar_vrms') and k['rows'][0][2] == 1:
+        cal = getattr(cls, meth)(f, x, **gkw, **kw)           # vrms left out: documented default 1 Vrms
+    else:
+        cal = getattr(cls, meth)(f, x, v, **gkw, **kw) if pos else getattr(cls, meth)(f, x, vrms=v, **gkw, **kw)
     if k.get('mutate_inputs'):
         for a in (f, x, v):
             scribble(a)
@@ -240,6 +250,16 @@ def q_line(q):
         return f"set_fixed_gain {f2b(q['G'])}"
     if o == 'twin':
         return None             # another object is built and used: the model's object is not concerned
+    if o == 'reuse':
+        # the same frequency array handed over twice, overwritten in place in between: two array queries for the model
+        m = q['meth']
+        if m == 'sens':
+            return [f"sensv {fl(q['fs'])}", f"sensv {fl(q['fs2'])}"]
+        if m == 'sf':
+            return [f"sfv {f2b(q['L'])} {f2b(q['A'])} {fl(q['fs'])}", f"sfv {f2b(q['L'])} {f2b(q['A'])} {fl(q['fs2'])}"]
+        if m == 'db':
+            return ['dbv ' + ','.join(f'{f2b(f)}:{f2b(v)}' for f, v in zip(fr, q['vs'])) for fr in (q['fs'], q['fs2'])]
+        return []               # get_gain / get_attenuation on arrays: no model command, oracle only
     raise ValueError(o)
 
 
@@ -282,6 +302,92 @@ def twin_of(k):
     return k2
 
 
+def _reuse_call(cal, q, k=None):
+    """the array method of a `reuse` query, as a function of the caller's frequency (and voltage) buffers"""
+    m, L, A = q['meth'], q.get('L', 60.0), q.get('A', 0.0)
+    if m == 'sens':
+        return lambda f, v: cal.get_sens(f)
+    if m == 'sf':
+        return lambda f, v: cal.get_sf(f, L, A)
+    if m == 'db':
+        get_db = cal.get_spl if q.get('spl') and (k is None or has_spl(k)) else cal.get_db
+        return lambda f, v: get_db(f, v)
+    if m == 'gain':
+        return lambda f, v: cal.get_gain(f, L, A)
+    if m == 'att':
+        return lambda f, v: cal.get_attenuation(f, v, L)
+    raise ValueError(m)
+
+
+def _overwrite(q, fbuf):
+    """the caller re-uses its frequency buffer: new contents written in place (shape and dtype unchanged)"""
+    if q['how'] == 'scale':
+        fbuf *= q['factor']
+    else:
+        fbuf[:] = q['fs2']
+    if fbuf.tolist() != [float(x) for x in q['fs2']]:
+        raise AssertionError('harness: buffer contents are not fs2')
+
+
+def run_reuse(cal, q, k=None):
+    """[first answer, answer after the caller overwrote its buffer in place] (model lines: see q_line)"""
+    from psiaudio.calibration import CalibrationError
+    call = _reuse_call(cal, q, k)
+    fbuf, vbuf = np.array(q['fs'], dtype=float), np.array(q['vs'], dtype=float)
+    out = []
+    for step in (0, 1):
+        if step:
+            _overwrite(q, fbuf)
+        try:
+            r = call(fbuf, vbuf)
+            out.append(vals(r, atol=DB_ATOL if q['meth'] != 'sf' else 0.0))
+        except CalibrationError:
+            out.append(err('CalibrationError'))
+        except ValueError:
+            out.append(err('ValueError'))
+    return out if q['meth'] in ('sens', 'sf', 'db') else []
+
+
+def law_reuse(cal, k, q):
+    """hardening item 6 (histories): ONE frequency array handed to the same method of the same object twice, its contents
+    overwritten in place by the caller in between (same shape; values may leave the calibrated range) and nothing else
+    asked in between: the second answer is the answer for the new contents, frequency by frequency what the scalar form
+    says (NaN / CalibrationError included); the array returned first is left alone"""
+    call = _reuse_call(cal, q, k)
+    name = {'sens': 'get_sens', 'sf': 'get_sf', 'db': 'get_db', 'gain': 'get_gain', 'att': 'get_attenuation'}[q['meth']]
+    fbuf, vbuf = np.array(q['fs'], dtype=float), np.array(q['vs'], dtype=float)
+    from psiaudio.calibration import CalibrationError
+    try:
+        obj1 = call(fbuf, vbuf)                 # what the first call handed back, as the caller holds it
+        keep1 = np.array(obj1, dtype=float, copy=True)
+        r1 = keep1.tolist()
+    except (CalibrationError, ValueError) as e:
+        obj1, keep1, r1 = None, None, type(e).__name__
+    _overwrite(q, fbuf)
+    r2 = _try(lambda: call(fbuf, vbuf))
+    if obj1 is not None and not np.array_equal(np.asarray(obj1, dtype=float), keep1, equal_nan=True):
+        return (f'{name}: the array returned for {q["fs"]!r} changed when the caller overwrote its frequency buffer '
+                f'afterwards: {keep1.tolist()!r} -> {np.asarray(obj1, dtype=float).tolist()!r}')
+    one = [_try(lambda: call(f, v)) for f, v in zip(q['fs2'], q['vs'])]
+    errs = [x for x in one if isinstance(x, str) and x != 'nan']
+    what = (f'{name} asked twice with the same frequency array, first holding {q["fs"]!r}, then overwritten in place '
+            f'({q["how"]}) with {q["fs2"]!r}')
+    if errs:
+        if not (isinstance(r2, str) and r2 == errs[0]):
+            return f'{what}: the scalar form raises {errs[0]} for the new contents, the second call returned {r2!r}'
+        return None
+    if isinstance(r2, str) or np.size(r2) != len(one):
+        return f'{what}: second call gave {r2!r}, the scalar form on the new contents {one!r}'
+    tol = 1e-12 if q['meth'] == 'sf' else None
+    for f, a, b in zip(q['fs2'], one, np.asarray(r2, dtype=float).ravel()):
+        if a == 'nan':
+            if not math.isnan(b):
+                return f'{what}: {f!r} Hz is outside the calibrated range (scalar form NaN), the second call gives {float(b)!r}'
+        elif not abs(b - a) <= (DB_TOL if tol is None else tol * abs(a)):
+            return f'{what}: at {f!r} Hz the second call gives {float(b)!r}, the scalar form {a!r} (first answer was {r1!r})'
+    return None
+
+
 def run_query(cal, q, k=None):
     import pandas as pd
     from psiaudio.calibration import CalibrationError
@@ -301,6 +407,8 @@ def run_query(cal, q, k=None):
         if o == 'att':
             return num(np.asarray(cal.get_attenuation(_freq(q), _num(q, 'v'), _num(q, 'L')), dtype=float)[()], atol=DB_ATOL)
         if o == 'gain':
+            if q.get('omit') and q['A'] == 0:
+                return num(np.asarray(cal.get_gain(_freq(q), _num(q, 'L')), dtype=float)[()], atol=DB_ATOL)
             if q.get('kw'):
                 return num(np.asarray(cal.get_gain(_freq(q), _num(q, 'L'), attenuation=_num(q, 'A')), dtype=float)[()], atol=DB_ATOL)
             return num(np.asarray(cal.get_gain(_freq(q), _num(q, 'L'), _num(q, 'A')), dtype=float)[()], atol=DB_ATOL)
@@ -311,7 +419,9 @@ def run_query(cal, q, k=None):
                 flb, fub = float(flb), float(fub)
             elif q.get('mr') == 'npint':
                 flb, fub = np.int64(flb), np.int64(fub)
-            if q.get('kw'):
+            if q.get('omit') and q['A'] == 0:
+                r = cal.get_mean_sf(flb, fub, _num(q, 'L'))
+            elif q.get('kw'):
                 r = cal.get_mean_sf(flb, fub, _num(q, 'L'), attenuation=_num(q, 'A'))
             else:
                 r = cal.get_mean_sf(flb, fub, _num(q, 'L'), _num(q, 'A'))
@@ -321,6 +431,8 @@ def run_query(cal, q, k=None):
             args, keeps = [fa], [np.array(q['fs'], dtype=float).reshape(np.shape(fa))]
             if o == 'sensv':
                 r = cal.get_sens(fa)
+            elif o == 'sfv' and q.get('omit') and q['A'] == 0:
+                r = cal.get_sf(fa, _num(q, 'L'))
             elif o == 'sfv':
                 r = cal.get_sf(fa, _num(q, 'L'), attenuation=_num(q, 'A')) if q.get('kw') else \
                     cal.get_sf(fa, _num(q, 'L'), _num(q, 'A'))
@@ -410,7 +522,11 @@ def check_laws(k, queries):
     cal = mkcal(k)
     flat = is_flat(k)
     tbl = None if flat else table(k)
-    G0 = cal.fixed_gain
+    G0 = k.get('G', 0.0)        # the gain the caller described (a constructor called without one has 0 dB: documented default)
+    if not flat:
+        f = law_table_attributes(cal, k, tbl)
+        if f:
+            return f
 
     def in_range(f):
         if flat:
@@ -454,9 +570,13 @@ def check_laws(k, queries):
             Lq, Aq, vq = (rep_scalar(x, q.get('nr')) for x in (L, A, v))
             get_db = cal.get_spl if q.get('spl') and has_spl(k) else cal.get_db
             sens = _try(lambda: cal.get_sens(fq))
-            sf = _try(lambda: cal.get_sf(fq, Lq, attenuation=Aq) if q.get('kw') else cal.get_sf(fq, Lq, Aq))
+            # an attenuation of 0 dB left out (documented default `attenuation=0`) is the same request
+            omit = bool(q.get('omit')) and A == 0
+            sf = _try(lambda: cal.get_sf(fq, Lq) if omit else cal.get_sf(fq, Lq, attenuation=Aq) if q.get('kw')
+                      else cal.get_sf(fq, Lq, Aq))
             dbv = _try(lambda: get_db(fq, vq))
-            gain = _try(lambda: cal.get_gain(fq, Lq, attenuation=Aq) if q.get('kw') else cal.get_gain(fq, Lq, Aq))
+            gain = _try(lambda: cal.get_gain(fq, Lq) if omit else cal.get_gain(fq, Lq, attenuation=Aq) if q.get('kw')
+                        else cal.get_gain(fq, Lq, Aq))
             att = _try(lambda: cal.get_attenuation(fq, vq, Lq))
             if not inside:
                 # outside the calibrated range: NaN or an error, never a level
@@ -499,17 +619,27 @@ def check_laws(k, queries):
                 cal.set_fixed_gain(G0)
                 if not (isinstance(c, float) and abs(db_of(c) - db_of(sf) - d) <= DB_TOL):
                     return f'fixed gain +{d!r} dB changed get_sf({f!r}, {L!r}) from {sf!r} to {c!r}'
-            if not (isinstance(gain, float) and abs(gain - db_of(sf)) <= DB_TOL):
-                return f'get_gain({f!r}, {L!r}, {A!r}) = {gain!r}, db(get_sf) = {db_of(sf)!r}'
+            sfx = _try(lambda: cal.get_sf(f, L, A))          # every argument spelled out
+            if not (isinstance(sfx, float) and abs(db_of(sf) - db_of(sfx)) <= DB_TOL):
+                return (f'get_sf({f!r}, {L!r}{"" if omit else ", " + repr(A)}) = {sf!r} as the caller spelled it, '
+                        f'get_sf({f!r}, {L!r}, {A!r}) = {sfx!r}')
+            if not (isinstance(gain, float) and abs(gain - db_of(sfx)) <= DB_TOL):
+                return (f'get_gain({f!r}, {L!r}{"" if omit else ", " + repr(A)}) = {gain!r}, '
+                        f'db(get_sf({f!r}, {L!r}, {A!r})) = {db_of(sfx)!r}')
         elif o in ('sensv', 'sfv', 'dbv'):
             # array (list, tuple, integer / float32 / 2-D / strided array, Series, DataFrame) = scalar, point by point
             f = law_array(cal, k, q)
             if f:
                 return f
+        elif o == 'reuse':
+            f = law_reuse(cal, k, q)
+            if f:
+                return f
         elif o == 'meansf':
             flb, fub, L, A = q['flb'], q['fub'], q['L'], q['A']
             fr = np.arange(flb, fub)
-            got = _try(lambda: cal.get_mean_sf(flb, fub, L, attenuation=A))
+            got = _try(lambda: cal.get_mean_sf(flb, fub, L) if (q.get('omit') and A == 0)
+                       else cal.get_mean_sf(flb, fub, L, attenuation=A))
             if flat:
                 want = _f(cal.get_sf(flb, L, A))
             else:
@@ -562,6 +692,23 @@ def check_laws(k, queries):
     return None
 
 
+def law_table_attributes(cal, k, tbl):
+    """"reproduce the table at its points", read from the object itself: the table a frequency-dependent calibration
+    reports (`frequency` / `sensitivity` attributes, any order) is the table it was built from.  Not asked when the
+    caller overwrote its own arrays afterwards (InterpCalibration's attributes are the caller's arrays)."""
+    if k.get('mutate_inputs') and k['c'].startswith('interp'):
+        return None
+    try:
+        fa = np.atleast_1d(np.asarray(cal.frequency, dtype=float)).ravel()
+        sa = np.atleast_1d(np.asarray(cal.sensitivity, dtype=float)).ravel()
+    except AttributeError as e:
+        return f'{k["c"]}: the calibration object does not report the table it was built from ({e})'
+    got = sorted(zip(fa.tolist(), sa.tolist()))
+    if len(got) != len(tbl) or any(a[0] != b[0] or not abs(a[1] - b[1]) <= DB_TOL for a, b in zip(got, tbl)):
+        return f'{k["c"]}: the object reports the table {got[:4]!r}..., it was built from {list(tbl[:4])!r}...'
+    return None
+
+
 def law_array(cal, k, q):
     """the array forms answer, position by position, what the scalar form answers (NaN / error included)"""
     import pandas as pd
@@ -573,7 +720,8 @@ def law_array(cal, k, q):
         got = _try(lambda: cal.get_sens(rep_array(fs, q.get('ar'))))
     elif o == 'sfv':
         one = [_try(lambda: cal.get_sf(f, L, A)) for f in fs]
-        got = _try(lambda: cal.get_sf(rep_array(fs, q.get('ar')), L, A))
+        got = _try(lambda: cal.get_sf(rep_array(fs, q.get('ar')), L) if (q.get('omit') and A == 0)
+                   else cal.get_sf(rep_array(fs, q.get('ar')), L, A))
     else:
         one = [_try(lambda: cal.get_db(f, v)) for f, v in zip(fs, q['vs'])]
         if q.get('series'):
@@ -641,10 +789,11 @@ def order_rows(rng, n):
 
 def gen_ctor(rng, kind):
     G = rng.choice([0.0, 0.0, rnd(rng, -60, 60), float(rng.randint(-60, 60))])
-    extra = {'Grepr': rng.choice(NUM_REPRS), 'nrepr': rng.choice(NUM_REPRS), 'positional': rng.random() < 0.3}
+    extra = {'Grepr': rng.choice(NUM_REPRS), 'nrepr': rng.choice(NUM_REPRS), 'positional': rng.random() < 0.3,
+             'omit_v': rng.random() < 0.6, 'omit_G': rng.random() < 0.6}     # (effective when vrms == 1 / gain == 0)
     if kind == 'flat':
         c = rng.choice(['flat', 'from_spl', 'from_db', 'from_pascals', 'from_mv_pa', 'unity', 'as_attenuation'])
-        v = rng.choice([1.0, 0.1, 2.0, rnd(rng, 1e-3, 10)])
+        v = rng.choice([1.0, 1.0, 0.1, 2.0, rnd(rng, 1e-3, 10)])
         if c == 'flat':
             return dict(extra, c=c, S=rng.choice([rnd(rng, -60, 160), float(rng.randint(-60, 160))]), G=G)
         if c in ('from_spl', 'from_db'):
@@ -685,7 +834,7 @@ def gen_ctor(rng, kind):
     if extra['repr'] == 'f32' and kind == 'point':
         extra['repr'] = 'ndarray'
     scalar_v = rng.random() < 0.5
-    v0 = rng.choice([1.0, 0.1, 2.0, rnd(rng, 1e-3, 10)])
+    v0 = rng.choice([1.0, 1.0, 0.1, 2.0, rnd(rng, 1e-3, 10)])
     rows = []
     for i in order:
         x = rnd(rng, 1e-3, 50) if c.endswith('pascals') else (float(rng.randint(20, 130)) if integer else rnd(rng, 20, 130))
@@ -752,7 +901,7 @@ def gen_queries(rng, k, nq):
     G0 = k.get('G', 0.0)
     while len(qs) < nq:
         o = rng.choice(['sens', 'sf', 'sf', 'db', 'db', 'att', 'gain', 'meansf', 'sensv', 'sfv', 'dbv',
-                        'set_fixed_gain', 'sensitivity', 'twin', 'again', 'regain']
+                        'set_fixed_gain', 'sensitivity', 'twin', 'again', 'regain', 'reuse']
                        + (['tomvpa'] * 2 if is_flat(k) else []))
         L = rng.choice([rnd(rng, -20, 120), float(rng.randint(-20, 120)), 0.0])
         A = rng.choice([0.0, 0.0, 20.0, rnd(rng, 0, 120), float(rng.randint(-40, 120)), -6.0])
@@ -781,13 +930,14 @@ def gen_queries(rng, k, nq):
                     flb = rng.randint(lo, max(lo, hi))
                     fub = flb - rng.randint(0, 2)
             qs.append({'op': o, 'flb': int(flb), 'fub': int(fub), 'L': L, 'A': A, 'nr': how['nr'], 'kw': how['kw'],
-                       'mr': rng.choice([None, 'float', 'npint'])})
+                       'omit': how['omit'], 'mr': rng.choice([None, 'float', 'npint'])})
         elif o in ('sensv', 'sfv', 'dbv'):
             n = rng.randint(0, 6) if not k['c'].startswith('point') else rng.randint(1, 6)
             ff = [pick_freq(rng, k) for _ in range(n)]
             if k['c'].startswith('point') and rng.random() < 0.6:
                 ff = [rng.choice(fs) for _ in range(n)]
-            q = {'op': o, 'fs': ff, 'L': L, 'A': A, 'ar': rng.choice(ARR_REPRS), 'nr': how['nr'], 'kw': how['kw']}
+            q = {'op': o, 'fs': ff, 'L': L, 'A': A, 'ar': rng.choice(ARR_REPRS), 'nr': how['nr'], 'kw': how['kw'],
+                 'omit': how['omit']}
             if q['ar'] == 'series' and not k['c'].startswith('point') and n == 0:
                 q['ar'] = None
             if o == 'dbv':
@@ -798,6 +948,21 @@ def gen_queries(rng, k, nq):
                     q['series'] = True
                 elif r < 0.5 and len(set(ff)) == len(ff) and n > 0:
                     q['frame'] = True
+            qs.append(q)
+        elif o == 'reuse':
+            # one frequency buffer, two calls of one method, the buffer overwritten in place in between
+            n = rng.randint(1, 6)
+            ff = [pick_freq(rng, k) for _ in range(n)]
+            if k['c'].startswith('point') and rng.random() < 0.8:
+                ff = [rng.choice(fs) for _ in range(n)]
+            q = {'op': o, 'meth': rng.choice(['sens', 'sens', 'sf', 'db', 'gain', 'att']), 'fs': ff, 'L': L, 'A': A,
+                 'vs': [rnd(rng, 1e-6, 10) for _ in ff], 'spl': how['spl']}
+            if rng.random() < 0.5:
+                q.update(how='scale', factor=rng.choice([2.0, 0.5, 1.25]))      # (exact in binary)
+                q['fs2'] = [f * q['factor'] for f in ff]
+            else:
+                q['how'] = 'assign'
+                q['fs2'] = [rng.choice(fs) if (fs and rng.random() < 0.6) else pick_freq(rng, k) for _ in range(n)]
             qs.append(q)
         elif o == 'set_fixed_gain':
             qs.append({'op': o, 'G': rng.choice([0.0, 20.0, -40.0, rnd(rng, -60, 60)]), 'nr': how['nr']})
@@ -849,7 +1014,9 @@ class C07(FloatSpec):
             'and floats, 0-d arrays; positional and keyword arguments; array queries in the same containers (law: array '
             'form = scalar form point by point), DataFrame form, get_spl alias; a twin object differing in one parameter; '
             'the same query repeated; gain changed after first use and set back; two tables of 1500-3000 rows with '
-            '4000-20000 query frequencies per run.')
+            '4000-20000 query frequencies per run. Targeted pass: vrms / fixed_gain / attenuation left out of the call when they '
+            'carry the documented default (1 Vrms, 0 dB); the table the object reports (frequency / sensitivity attributes); one '
+            'frequency array asked twice by the same method, overwritten in place in between (op reuse).')
 
     def gen(self, rng, tier):
         n = 700 if tier == 'quick' else 14000
@@ -861,20 +1028,30 @@ class C07(FloatSpec):
             yield gen_big(rng, kind)
 
     def model_lines(self, c):
-        return [ctor_line(c['ctor'])] + [l for l in (q_line(q) for q in c['queries']) if l is not None]
+        out = [ctor_line(c['ctor'])]
+        for q in c['queries']:
+            l = q_line(q)
+            if isinstance(l, list):
+                out.extend(l)
+            elif l is not None:
+                out.append(l)
+        return out
 
     def impl_results(self, c):
         k = c['ctor']
         try:
             cal = mkcal(k)
         except ValueError:
-            return [err('ValueError')] + [err('NoCalibration')] * len([q for q in c['queries'] if q['op'] != 'twin'])
+            return [err('ValueError')] + [err('NoCalibration')] * (len(self.model_lines(c)) - 1)
         out = [('ok',)]
         for q in c['queries']:
             if q['op'] == 'twin':
                 other = mkcal(twin_of(k))
                 run_query(other, {'op': 'sf', 'f': q['f'], 'L': 60.0, 'A': 0.0})
                 other.set_fixed_gain(-33.0)
+                continue
+            if q['op'] == 'reuse':
+                out.extend(run_reuse(cal, q, k))
                 continue
             r = run_query(cal, q, k)
             if q['op'] == 'sensitivity':
